@@ -29,6 +29,108 @@ def E_owner(P, f):
     return f
 
 
+_CONVERT = re.compile(r"from_utf8(_lossy|_unchecked)?$|into_owned$|ToString>::to_string$|From<.*>>::from$|Into<.*>>::into$|String::(as_str|as_bytes|into_bytes|from_utf8.*)$|"
+                      r"(Result|Option)::(unwrap|expect|unwrap_or_default|map_err|unwrap_unchecked)$|Try>::branch$|Iterator>::next$|Iterator::enumerate$|"
+                      r"ToOwned>::to_owned$|Cow<.*>::(into_owned|to_mut)$|str::(as_bytes|to_owned)$|to_vec$|Deref>::deref$")
+_TERM_STRIP = re.compile(r"str::(strip_suffix|trim_end_matches|trim_right_matches)$|slice::<impl \[T\]>::strip_suffix$")
+_CUT = re.compile(r"Index<.*>>::index$|::truncate$|::pop$|::split_at$|::split_off$|::drain$|slice::<impl \[T\]>::(get|split_last|split_first)$|str::get$|::remove$")
+_SOURCE = re.compile(r"Lines<.*>.*Iterator>::next$|std::io::Lines|BufRead::lines$")
+
+
+def _is_terminator_const(op):
+    if op.get("k") != "const":
+        return False
+    v = str(op.get("val", op.get("v", "")))
+    return v in ("10", "13", "'\\n'", "'\\r'", "\"\\n\"", "\"\\r\\n\"", "\"\\r\"") or v.strip("'\"") in ("\n", "\r", "\r\n", "\\n", "\\r", "\\r\\n")
+
+
+def _terminator_guarded(f, bb):
+    """is block bb only reached after a test that mentions the line terminator (ends_with / last / == b'\\n' ...)?"""
+    for (sw, lab, tgt) in F.guards_dominating(f, bb):
+        info = F.switch_info(f, sw)
+        if not info:
+            continue
+        subj = info[1]
+        for o in F.origins(f, subj, depth=8):
+            if o.kind == "call" and re.search(r"ends_with$|strip_suffix$|::last$|PartialEq.*::(eq|ne)$", short(o.call.name)):
+                if any(_is_terminator_const(a) or any(x.kind == "const" and _is_terminator_const(x.const) for x in F.origins(f, a, depth=5))
+                       for a in o.call.args):
+                    return True
+            if o.kind == "binop" and o.extra in ("Eq", "Ne"):
+                for side in (o.place["l"], o.place["r"]):
+                    if _is_terminator_const(side) or any(x.kind == "const" and _is_terminator_const(x.const) for x in F.origins(f, side, depth=4)):
+                        return True
+    return False
+
+
+def _whole_line(R, jf):
+    """C05.line: the text a row of the joined table is extracted from is a whole line of the joined file"""
+    rid = "C05.line"
+    ex = [c for c in jf.calls if short(c.name).endswith("ExecutionEngine::execute") and len(c.args) >= 2]
+    if not ex:
+        return
+    c = ex[0]
+    seen = set()
+    work = [c.args[1]]
+    bad = []
+    src = 0
+    buffers = set()
+    steps = 0
+    while work and steps < 200:
+        op = work.pop()
+        steps += 1
+        for o in F.origins(jf, op, depth=14, through_calls=False):
+            if o.kind != "call" or id(o.call) in seen:
+                continue
+            seen.add(id(o.call))
+            n = short(o.call.name)
+            if _SOURCE.search(n) or ("Iterator>::next" in n and "Lines" in " ".join(o.call.targs or []) + (o.call.args[0].get("ty") if o.call.args else "")):
+                src += 1
+                continue
+            if re.search(r"^alloc::(vec::Vec|string::String)::(new|with_capacity)$", n):
+                d = o.call.dest
+                if d is not None:
+                    buffers.add(d["l"])
+                continue
+            if _TERM_STRIP.search(n):
+                if len(o.call.args) > 1 and (_is_terminator_const(o.call.args[1]) or
+                                             any(x.kind == "const" and _is_terminator_const(x.const) for x in F.origins(jf, o.call.args[1], depth=5))):
+                    work.append(o.call.args[0])
+                    continue
+                bad.append((o.call, "strips something other than the line terminator (%s)" % n.split("::")[-1]))
+                continue
+            if _CUT.search(n):
+                if not _terminator_guarded(jf, o.call.bb):
+                    bad.append((o.call, "cuts the line (%s) without having tested that what it removes is the line terminator" % n.split("::")[-1]))
+                if o.call.args:
+                    work.append(o.call.args[0])
+                continue
+            if _CONVERT.search(n) or F.TRANSPARENT.search(n):
+                if o.call.args:
+                    work.append(o.call.args[0])
+                continue
+            if re.search(r"str::(trim|trim_end|trim_start|to_lowercase|to_uppercase|replace|replacen|split.*|trim_matches|trim_start_matches)$|"
+                         r"::(retain|dedup|reverse|sort.*)$", n):
+                bad.append((o.call, "rewrites the line (%s) before the joined row is extracted from it" % n.split("::")[-1]))
+    # a buffer filled by read_until / read_line: in-place cuts of it need the same test
+    for cc in jf.calls:
+        n = short(cc.name)
+        if buffers and re.search(r"::(truncate|pop|remove|drain|split_off)$", n) and cc.args and PR.loop_of(jf, cc.bb) is not None:
+            root = F.source_place(jf, cc.args[0])
+            if root and root["l"] in buffers and not _terminator_guarded(jf, cc.bb) and id(cc) not in seen:
+                bad.append((cc, "cuts the line buffer (%s) without having tested that what it removes is the line terminator" % n.split("::")[-1]))
+    R.rule(rid, "the text a row of the joined table is extracted from is a whole line of the joined file: between the read (Lines::next, or "
+                "read_until / read_line into a buffer) and ExecutionEngine::execute it is only converted; a cut is allowed only under a test "
+                "that what is cut is the line terminator")
+    if bad:
+        for cc, what in bad[:3]:
+            R.violation(rid, "JoinedTableData::execute|" + short(cc.name).split("::")[-1],
+                        "JoinedTableData::execute %s: a row s of the joined file is extracted from a different text than its line (a last "
+                        "line without a newline, or a value at the end of a line, no longer joins)" % what, [cc.loc()])
+    else:
+        R.ok(rid, "JoinedTableData::execute|line", "line text reaches execute unmodified (%d read source(s), %d buffer(s))" % (src, len(buffers)), c.loc())
+
+
 def run(R):
     P = R.prog
     from . import rules_c16
@@ -81,6 +183,7 @@ def run(R):
             R.violation("C05.err", "JoinedTableData::execute|" + what,
                         "the result of %s is not propagated as an error%s: a missing join column / file / table would look like an empty join"
                         % (what, " (swallowed by %s)" % short(swallow[0].name) if swallow else ""), [c.loc()])
+    _whole_line(R, jf)
     # ---- the joined table is loaded before, and independent of, the input lines: its errors cannot be hidden by an input without
     #      admitted rows
     R.rule("C05.eager", "the joined table is loaded up front: ExecutionEngine::execute_joined_table calls JoinedTableData::execute on every path "
